@@ -198,9 +198,11 @@ const (
 	sigPanic      = "da-data-foreign-key-nil-metadata-panic"
 	sigF4         = "p2p-header-not-proposer-signed-stored"
 	sigP2PData    = "p2p-data-unauthenticated-stored"
-	sigHalt       = "sync-halts-after-forged-item"
-	sigApplied    = "forged-block-applied"
-	sigDiverge    = "end-state-diverges-after-forged-item"
+	sigHalt       = "sync-halts-after-forged-item"         // through DA: repaired, must not come back
+	sigApplied    = "forged-block-applied"                 // repaired, must not come back
+	sigDiverge    = "end-state-diverges-after-forged-item" // through DA: repaired, must not come back
+	sigHaltP2P    = "sync-halts-after-unauthenticated-p2p-data"
+	sigDivergeP2P = "end-state-diverges-after-forged-p2p-item"
 	sigUnexpected = "unexpected-admission"
 )
 
@@ -447,33 +449,38 @@ func (w *world) oracle(ref, got *runResult) (sigs []string, what map[string]stri
 			add(sigUnexpected, fmt.Sprintf("item %d: an adversarial item outside every listed class was admitted", a.idx))
 		}
 	}
-	explained := false
-	for _, v := range known {
-		explained = explained || v
-	}
-	pre := func(s string) string {
-		if explained {
-			return s
-		}
-		return "unexplained-" + s
-	}
+	viaP2P := known[sigF4] || known[sigP2PData]
+	viaDA := known[sigF3Header] || known[sigF3Data] || known[sigPanic]
 	if got.crashed && !known[sigPanic] {
 		add("unexplained-crash", "a goroutine of the node panicked")
 	}
 	if len(got.unsignedApplied) > 0 {
-		add(pre(sigApplied), fmt.Sprintf("the node applied and stored block(s) %v whose header is not signed by the genesis proposer's key", got.unsignedApplied))
+		add(sigApplied, fmt.Sprintf("the node applied and stored block(s) %v whose header is not signed by the genesis proposer's key", got.unsignedApplied))
 	}
 	if got.halted && !ref.halted {
-		// the listed halt: trySyncNextBlock's validation of the cached (header, data) pair fails
-		if cls := trimErr(got.haltErr); validationErrs[cls] {
-			add(pre(sigHalt), "SyncLoop returned with an error (the node stops following the chain): "+cls)
-		} else {
+		// the listed halt: trySyncNextBlock's validation of the cached (header, data) pair fails because the
+		// cached data is a third party's P2P data
+		cls := trimErr(got.haltErr)
+		switch {
+		case validationErrs[cls] && known[sigP2PData]:
+			add(sigHaltP2P, "SyncLoop returned with an error (the node stops following the chain) after third-party P2P data was cached: "+cls)
+		case validationErrs[cls] && viaDA:
+			add(sigHalt, "SyncLoop returned with an error after a forged DA item was admitted: "+cls)
+		default:
 			add("unexplained-halt", "SyncLoop returned with an error: "+cls)
 		}
 	}
 	if !ref.halted && !got.halted && !got.crashed && len(got.unsignedApplied) == 0 {
 		if got.height != ref.height || !bytes.Equal(got.app, ref.app) || !sameHeaders(got.applied, ref.applied) || got.dainc != ref.dainc {
-			add(pre(sigDiverge), fmt.Sprintf("end state differs from the genuine-only run: height %d vs %d, DA-included %d vs %d", got.height, ref.height, got.dainc, ref.dainc))
+			wh := fmt.Sprintf("end state differs from the genuine-only run: height %d vs %d, DA-included %d vs %d", got.height, ref.height, got.dainc, ref.dainc)
+			switch {
+			case viaP2P:
+				add(sigDivergeP2P, wh+" (a forged item sits in a go-header store; the genuine item of that height is rejected as known)")
+			case viaDA:
+				add(sigDiverge, wh)
+			default:
+				add("unexplained-divergence", wh)
+			}
 		}
 	}
 	if len(got.unsignedStored) > 0 && !known[sigF4] {
@@ -526,7 +533,7 @@ func genAdvItem(r *rand.Rand, L uint64, via string) Item {
 			it.Kind = "hdr"
 		}
 	} else {
-		if r.Intn(100) < 30 {
+		if r.Intn(100) < 45 {
 			it.Kind = "data"
 		} else {
 			it.Kind = "hdr"
@@ -895,7 +902,7 @@ func genCase(seed int64, c int, tier string) Replay {
 	}
 	for i := 0; i < na; i++ {
 		via := "da"
-		if r.Intn(100) < 35 {
+		if r.Intn(100) < 45 {
 			via = "p2p"
 		}
 		it := genAdvItem(r, L, via)
@@ -991,7 +998,7 @@ func TestVerif(t *testing.T) {
 		}
 	}
 	res.Distinct = len(distinct)
-	res.Rule = "per case a fresh world: 3 real Ed25519 keys, a real aggregator Manager producing 3-5 blocks (thorough: 3-8; 60% non-empty); every third case = admission case (10 adversarial + all genuine DA blobs each on a fresh non-aggregator Manager; 8 adversarial + genuine gossip headers through go-header's Validate/Verify/append on a real store); other cases = end-to-end: genuine traffic (P2P init 60%, each block over DA/P2P/both, 15% neighbour swaps) interleaved at random positions with 0-4 adversarial items (F3 shape 38%, honest third party, stolen signature, unsigned hash-linked, junk signature, wrong chain id, past/future height, future time, truncated/junk/undecodable/empty blobs, forged data with and without Metadata, linked/unlinked P2P data) on a real syncing Manager under synctest, plus the genuine-only reference run; non-trivial = at least one adversarial item and 4 items; distinct = distinct (tx counts, item list)"
+	res.Rule = "per case a fresh world: 3 real Ed25519 keys, a real aggregator Manager producing 3-5 blocks (thorough: 3-8; 60% non-empty); every third case = admission case (10 adversarial + all genuine DA blobs each on a fresh non-aggregator Manager; 8 adversarial + genuine gossip headers through go-header's Validate/Verify/append on a real store); other cases = end-to-end: genuine traffic (P2P init 60%, each block over DA/P2P/both, 15% neighbour swaps) interleaved at random positions with 0-4 adversarial items (45% over P2P, of which 45% data; F3 shape 38% of headers, honest third party, stolen signature, unsigned hash-linked, junk signature, wrong chain id, past/future height, future time, truncated/junk/undecodable/empty blobs, forged data with and without Metadata, linked/unlinked P2P data) on a real syncing Manager under synctest, plus the genuine-only reference run; non-trivial = at least one adversarial item and 4 items; distinct = distinct (tx counts, item list)"
 	res.Cases = len(cases)
 	header := "From Coq Require Import String NArith ZArith List Bool.\nFrom Verif Require Import Model.Types Model.Admission Check.AdmissionCheck.\nLocal Open Scope N_scope."
 	path := filepath.Join(e.Out, "cases_C03.v")
